@@ -10,7 +10,10 @@ import (
 	"crypto/sha256"
 	"encoding/hex"
 	"fmt"
+	"github.com/bartossh/Computantis/src/protobufcompiled"
+	"github.com/bartossh/Computantis/src/transformers"
 	"math/big"
+	"reflect"
 	"sort"
 	"strconv"
 	"strings"
@@ -452,4 +455,23 @@ func (r *Ref) KeyFunc(k any) (string, bool) {
 		return x, true
 	}
 	return "", false
+}
+
+// TrxToProto calls transformers.TrxToProtoTrx whether it takes the transaction by value or by pointer (looked up by
+// reflection, so that the harness still builds after a refactoring of that signature).
+func TrxToProto(t transaction.Transaction) (*protobufcompiled.Transaction, error) {
+	f := reflect.ValueOf(transformers.TrxToProtoTrx)
+	var arg reflect.Value
+	if f.Type().NumIn() == 1 && f.Type().In(0).Kind() == reflect.Ptr {
+		arg = reflect.ValueOf(&t)
+	} else {
+		arg = reflect.ValueOf(t)
+	}
+	out := f.Call([]reflect.Value{arg})
+	var err error
+	if len(out) > 1 && !out[1].IsNil() {
+		err = out[1].Interface().(error)
+	}
+	pt, _ := out[0].Interface().(*protobufcompiled.Transaction)
+	return pt, err
 }
